@@ -191,19 +191,37 @@ class Opaque(HeapObj):
         return f"<opaque {self.name}>"
 
 
+class ArrStore:
+    """storage shared by all views of one array"""
+    def __init__(self, term):
+        self.term = term
+        self.version = 0
+
+
 class SymArr(HeapObj):
     """symbolic n-d array / memoryview: z3 nested Array Int->...->elem,
-    symbolic shape, C element type (None: Python ints)"""
-    def __init__(self, name, ctype, shape, arr=None, readonly=False):
+    symbolic shape, C element type (None: Python ints).  `memview` marks a
+    typed memoryview (C-level indexing: bounds per Cython directives)."""
+    def __init__(self, name, ctype, shape, arr=None, readonly=False, store=None, memview=False):
         super().__init__()
         self.name = name
         self.ctype = ctype
         self.shape = list(shape)
         self.readonly = readonly
-        self.version = 0
-        if arr is None:
-            arr = self.fresh_term()
-        self.arr = arr
+        self.memview = memview
+        if store is not None:
+            self.store = store
+        else:
+            self.store = ArrStore(None)
+            self.store.term = arr if arr is not None else self.fresh_term()
+
+    @property
+    def arr(self):
+        return self.store.term
+
+    @arr.setter
+    def arr(self, t):
+        self.store.term = t
 
     def sort(self):
         from .core import is_float_ctype
@@ -213,8 +231,13 @@ class SymArr(HeapObj):
         return s
 
     def fresh_term(self):
-        self.version += 1
-        return z3.Const(f"{self.name}!{self.stamp}v{self.version}", self.sort())
+        self.store.version += 1
+        return z3.Const(f"{self.name}!{self.stamp}v{self.store.version}", self.sort())
+
+    def view(self, memview=True, ctype=None):
+        v = SymArr(self.name, ctype or self.ctype, self.shape, store=self.store,
+                   readonly=self.readonly, memview=memview)
+        return v
 
     def __repr__(self):
         return f"<SymArr {self.name}:{self.ctype}{self.shape}>"
@@ -225,6 +248,13 @@ class Cell:
     def __init__(self, env, name):
         self.env = env
         self.name = name
+
+
+class ElemCell:
+    """pointer to an array element (`&a[i, j]`)"""
+    def __init__(self, arr, idx):
+        self.arr = arr
+        self.idx = idx
 
 
 class Poison:
